@@ -11,10 +11,12 @@ MANIFEST = dict(
          "every successful flush the rows equal the in-memory graph over the session's members (RowsEqualGraph, FkSound, no history left) and "
          "that one flush leaves nothing pending. Every edge of the state graph is replayed against the real ORM on SQLite (foreign_keys=ON): "
          "rows through the session's connection and the emitted DML set after every flush, committed rows through a second connection and "
-         "the graph loaded by a fresh session after every commit.",
+         "the graph loaded by a fresh session after every commit. OrmManyToMany.tla does the same for a many-to-many collection (uni- and "
+         "bidirectional) with the association table as database state: list mutations, session.delete() of owners and members, flush, commit + "
+         "reload; association rows must equal the membership pairs between session members and never reference a deleted row.",
     design_ref="3.9, 4 (C30), 6 (C30), Appendix I",
-    note="trusted: TLC, SQLite as the database; one-to-many/many-to-one mapping with explicit integer keys only (no many-to-many, inheritance, "
-         "composite or natural-key changes, merge); PostgreSQL/MariaDB not executable; histories end at a failed flush (C32 covers those)",
+    note="trusted: TLC, SQLite as the database; one-to-many/many-to-one and many-to-many (secondary table) mappings with explicit integer keys only (no "
+         "association objects, inheritance, composite or natural-key changes, merge); PostgreSQL/MariaDB not executable; histories end at a failed flush (C32 covers those)",
     technique="TLA+ spec (OrmGraph.tla) + TLC exhaustive model checking; spec->code replay of every state-graph edge into the real ORM")
 INVS = ["TypeOK", "BothSides", "RowsEqualGraph_ExceptStaleFk", "FkSound", "FlushClearsHistory", "MarkedArePersistent"]
 PROPS = ["FlushCompleteExceptReparented", "MarkedAreDeleted", "NoHistoryNoWrite", "CommittedOnlyAtFlush"]
@@ -52,6 +54,12 @@ def main(chk):
                             "c in p1.children, c.parent is p1, all members, row says pid = p2. Holds for every member whose FK attribute was never "
                             "written outside the session (RowsEqualGraph_ExceptStaleFk)."))
     st = oc.run_suite(chk, rng, configs, FOOT, deep=deep, expose=expose, nontrivial=nontrivial)
+    # many-to-many through a secondary table (OrmManyToMany.tla): association rows after a flush = membership pairs between members
+    mm_invs = ["BothSidesMM", "NoDuplicates", "RowsEqualGraphMM", "FkSoundMM"]
+    oc.run_mm(chk, rng, st, "m2m-unidirectional", False, oc.MM_MEM + ["Delete", "Flush", "CommitReload"], 4 if q else 5, mm_invs, ["RowsOnlyAtFlush"],
+              init="both", nrandom=100 if q else 1000)
+    oc.run_mm(chk, rng, st, "m2m-bidirectional", True, ["Append", "Remove", "Replace", "SetItem", "Delete", "Flush", "CommitReload"], 4 if q else 5, mm_invs,
+              ["RowsOnlyAtFlush"], init="linked" if q else "both", nrandom=100 if q else 1000)
     return chk.finish(
         dict(states=st["states"] + st["deep_states"], transitions=st["transitions"] + st["deep_transitions"],
              traces_validated_against_impl=st["walks"], evaluations=st["steps"], distinct_nontrivial=st["nontrivial"], samples=st["samples"],
